@@ -25,6 +25,8 @@ var c04Pools = [][2]string{
 	{" ", "\u0085x"}, {`\n`, `\"`}, {"=", ","}, {"?", ":"}, {"''", `""`}, {"<<", "y"}, {"\x1b[0m", "\x00"},
 	{"2001:12:14", "0o7"}, {".inf", "_"}, {"N", "Off"}, {"`", "$("}, {"key=", "[["},
 	{"null", "~"}, {"~", "Null"}, {"123", "2001-12-14"}, {"0x1f", "-.5"},
+	// text that looks like an escape sequence of the target notation (a backslash and a hex escape, an entity, a YAML tag)
+	{`C:\u003cdir`, `\u0026amp;`}, {`&lt;\x41`, `\U0001F333`}, {`!!str x`, `%YAML`},
 }
 
 // names Markdown cannot spell (one line per item, a trailing CR belongs to the line ending)
@@ -234,6 +236,9 @@ func checkC04(r *evid.Run) {
 		k := i
 		if i > 0 && r.Tier != "thorough" {
 			k = 1 + (i-1+int(r.Seed)*7)%(len(c04Pools)-1)
+		}
+		if i == 1 && r.Tier != "thorough" {
+			k = len(c04Pools) - 3 // (always: text that looks like an escape sequence of the target notation)
 		}
 		concs = append(concs, c04Conc(k))
 		names = append(names, fmt.Sprintf("%q/%q", c04Pools[k%len(c04Pools)][0], c04Pools[k%len(c04Pools)][1]))
